@@ -41,6 +41,19 @@ Lemma main_glwe_external_product (fam n : Z) (res a ggsw : infos) :
   run_takes (tree_glwe_external_product fam n res a ggsw) (0, glwe_external_product_tmp_bytes fam n res a ggsw) <> None.
 Proof. intros Hf Hp H8. apply suffices_glwe_external_product; auto using pow2_nonneg, pow2_ge8. Qed.
 
+Lemma main_gglwe_keyswitch (fam n : Z) (res a key : infos) :
+  is_fam fam -> pow2 n -> 8 <= n -> wf_infos res -> wf_infos a -> wf_infos key -> i_n a = n -> i_rank a = i_rank_in key ->
+  run_takes (tree_gglwe_keyswitch fam n res a key) (0, gglwe_keyswitch_tmp_bytes fam n res a key) <> None.
+Proof. intros Hf Hp H8. apply suffices_gglwe_keyswitch; auto using pow2_nonneg, pow2_ge8. Qed.
+Lemma main_gglwe_external_product (fam n : Z) (res a ggsw : infos) :
+  is_fam fam -> pow2 n -> 8 <= n -> wf_infos res -> wf_infos a -> wf_infos ggsw -> i_n a = n ->
+  run_takes (tree_gglwe_external_product fam n res a ggsw) (0, gglwe_external_product_tmp_bytes fam n res a ggsw) <> None.
+Proof. intros Hf Hp H8. apply suffices_gglwe_external_product; auto using pow2_nonneg, pow2_ge8. Qed.
+Lemma main_ggsw_external_product (fam n : Z) (res a ggsw : infos) :
+  is_fam fam -> pow2 n -> 8 <= n -> wf_infos res -> wf_infos a -> wf_infos ggsw -> i_n a = n ->
+  run_takes (tree_ggsw_external_product fam n res a ggsw) (0, ggsw_external_product_tmp_bytes fam n res a ggsw) <> None.
+Proof. intros Hf Hp H8. apply suffices_ggsw_external_product; auto using pow2_nonneg, pow2_ge8. Qed.
+
 Lemma main_glwe_automorphism_add_partial (fam n : Z) (res a key : infos) :
   is_fam fam -> pow2 n -> 8 <= n -> wf_infos res -> wf_infos a -> wf_infos key -> i_n a = n -> i_rank a = i_rank_in key ->
   fam = 0 \/ i_base2k a = i_base2k key \/ 2 <= i_rank a * i_size (conv_layout a key) ->
